@@ -67,6 +67,50 @@ func short(b []byte) string {
 	return string(b)
 }
 
+// loadDroppedFork feeds the stores the variant scenario and reorgs all of it away. ok=false: the scenario has no bridge
+// to vary (or the variant is not a scenario of the same shape).
+func loadDroppedFork(ctx context.Context, st *world.Stores, ops []world.Op) (bool, error) {
+	ops2 := append([]world.Op{}, ops...)
+	seenL1, seenL2 := false, false
+	for i, o := range ops2 {
+		if o.Kind == world.L1Deposit && !seenL1 {
+			ops2[i].A, seenL1 = (o.A+2)%4, true //nolint:mnd
+		}
+		if o.Kind == world.L2Deposit && !seenL2 {
+			ops2[i].A, seenL2 = (o.A+2)%4, true //nolint:mnd
+		}
+	}
+	if !seenL1 && !seenL2 {
+		return false, nil
+	}
+	w2, err := world.Build(ops2)
+	if err != nil {
+		return false, nil
+	}
+	if err := w2.LoadL1(ctx, st, true); err != nil {
+		return false, fmt.Errorf("dropped fork, L1: %w", err)
+	}
+	for _, b := range w2.L2Blocks {
+		if err := w2.LoadL2Block(ctx, st, b); err != nil {
+			return false, fmt.Errorf("dropped fork, L2: %w", err)
+		}
+		_ = w2.LoadLastGERBlock(ctx, st, b) // (may be stuck on two injections in one block, see below)
+	}
+	if err := st.L1Bridge.VerifStore().Reorg(ctx, 1); err != nil {
+		return false, fmt.Errorf("L1 bridge store Reorg(1): %w", err)
+	}
+	if err := st.L1Info.VerifStore().Reorg(ctx, 1); err != nil {
+		return false, fmt.Errorf("L1 info store Reorg(1): %w", err)
+	}
+	if err := st.L2Bridge.VerifStore().Reorg(ctx, 1); err != nil {
+		return false, fmt.Errorf("L2 bridge store Reorg(1): %w", err)
+	}
+	if err := st.LastGER.VerifStore().Reorg(ctx, 1); err != nil {
+		return false, fmt.Errorf("injected GER store Reorg(1): %w", err)
+	}
+	return true, nil
+}
+
 func run(c *mc.Ctx, u mc.Unit) {
 	p := u.Params.(certworld.Params)
 	w, err := world.Build(p.Ops)
@@ -81,6 +125,16 @@ func run(c *mc.Ctx, u mc.Unit) {
 		panic(err)
 	}
 	defer st.Close()
+	// The stores may have synced another fork first: the same scenario in which the FIRST L1 bridge and the first L2
+	// bridge are different ones (every later bridge is the same transaction re-included), reorged away from block 1.
+	if c.Bool("stores-synced-another-fork-first") {
+		if ok, herr := loadDroppedFork(ctx, st, p.Ops); herr != nil {
+			c.Failf("world-sanity/dropped-fork", "%s: %v", scen, herr)
+			return
+		} else if ok {
+			c.Witness("stores_that_synced_another_fork_first")
+		}
+	}
 	if err := w.LoadL1(ctx, st, world.Seed64(p.Ops)%2 == 1); err != nil {
 		c.Failf("world-sanity/l1-store-rejects-block", "%s: %v", scen, err)
 		return
